@@ -287,6 +287,15 @@ func Run(s *simrt.Sim, a *harness.Args, r *harness.Result) {
 		w.sink2 = &actors.ScriptedTarget{Label: "bounce2", Prop: a.Prop}
 	}
 
+	if (a.Prop == "C01" || a.Prop == "C10") && s.T.Choose("scen", 4) == 0 {
+		// one failing write (I/O error or disk full) while the meta-data of a
+		// message is (re)written: the hand-off or the attempt's bookkeeping
+		// fails, nothing that was acknowledged may get lost
+		w.fs.FaultOps = map[string]bool{"write": true}
+		w.fs.FaultSuffix = ".meta.new"
+		w.fs.FaultBudget = 1
+		w.fs.FaultNum, w.fs.FaultDen = 1, 3
+	}
 	// crash knobs (C02, C10): crash_at = mutating op number, 0 = none
 	w.fs.CrashAt = knob(a, "crash_at", 0)
 	w.fs.Model = simfs.CrashModel(knob(a, "crash_model", 0))
